@@ -21,6 +21,7 @@ def main():
         # TLExport iterates over sets of bytes; pin the hash seed so that a run is a function of code + VERIF_SEED only
         os.environ["PYTHONHASHSEED"] = "0"
         os.execv(sys.executable, [sys.executable] + sys.argv)
+    sys.path.insert(0, os.environ.get("TLEXPORT_ROOT", "/repo"))      # code under test: /repo's working tree (override only for sensitivity experiments)
     sys.path.insert(0, os.path.join(HERE, "lib"))
     sys.path.insert(0, HERE)
     deps = os.path.join(HERE, ".deps")
